@@ -28,7 +28,7 @@ def main(argv=None) -> int:
         return 2
     report = Report(pid, tier)
     meta = getattr(mod, "META", {})
-    report.explanation = meta.get("explanation", "")
+    report.explanation = meta.get("explanation", "") + (" Premises restated: " + meta["restated"] + "." if meta.get("restated") else "")
     report.not_decided = meta.get("not_decided", "")
     report.assumptions = list(meta.get("assumptions", []))
     try:
